@@ -3,6 +3,9 @@
 package drive
 
 import (
+	"bytes"
+	"runtime"
+	"strconv"
 	"context"
 	"fmt"
 	"io"
@@ -213,13 +216,15 @@ func (d *Daemon) SyncTo(tip uint32, o SyncOpts) Outcome {
 	consecutive := 0
 	polls := 0
 
-	d.Fake.TipFn = func() uint32 { return tip }
-	d.Fake.OnRequest = func(r fake.Req) fake.FaultKind {
+	d.Fake.SetTipFn(func() uint32 { return tip })
+	syncGid := gid()
+	d.Fake.SetOnRequest(func(r fake.Req) fake.FaultKind {
 		fk := fake.NoFault
 		if o.OnRequest != nil {
 			fk = o.OnRequest(r)
 		}
-		if r.Kind == "heights" {
+		// only the sync loop's own polls drive the run (API handlers also ask for heights)
+		if r.Kind == "heights" && gid() == syncGid {
 			polls++
 			// account failures logged since the last poll
 			capture.mu.Lock()
@@ -259,7 +264,7 @@ func (d *Daemon) SyncTo(tip uint32, o SyncOpts) Outcome {
 			}
 		}
 		return fk
-	}
+	})
 
 	func() {
 		defer func() {
@@ -282,7 +287,7 @@ func (d *Daemon) SyncTo(tip uint32, o SyncOpts) Outcome {
 		}()
 		d.Node.DBlockSync(ctx)
 	}()
-	d.Fake.OnRequest = nil
+	d.Fake.SetOnRequest(nil)
 	out.Synced = d.Node.Sync.Synced
 	capture.mu.Lock()
 	out.Logs = append(out.Logs, capture.entries...)
@@ -343,4 +348,14 @@ func CopyDB(srcPath, dstPath string) error {
 		}
 	}
 	return nil
+}
+
+func gid() uint64 {
+	var buf [64]byte
+	n := runtime.Stack(buf[:], false)
+	b := buf[:n]
+	b = b[len("goroutine "):]
+	i := bytes.IndexByte(b, ' ')
+	id, _ := strconv.ParseUint(string(b[:i]), 10, 64)
+	return id
 }
